@@ -556,30 +556,37 @@ def menus(tier):
   return [2, 3, 4, 5, 7], [1, 2, 3, 4, 6, 8]
 
 
+TABLE = SPECIAL + [k / 4 for k in range(-8, 9) if k not in (0, 4, -4, 2, -2, 8)]
+
+
 def score():
   return st.one_of(
-      st.sampled_from(SPECIAL),
-      st.integers(-8, 8).map(lambda k: k / 4),
+      st.sampled_from(TABLE), st.sampled_from(TABLE),
       st.floats(min_value=-BIG, max_value=BIG, width=32, allow_nan=False,
                 allow_infinity=False, allow_subnormal=False))
 
 
-@st.composite
-def score_row(draw, c, dtype):
-  elem = st.integers(-3, 3) if dtype == 'int32' else score()
-  style = draw(st.sampled_from(['pool', 'pool', 'pool', 'free', 'free', 'free',
-                                'const', 'zeros']))
-  if style == 'free':
-    return [draw(elem) for _ in range(c)]
-  if style == 'zeros':
-    if dtype == 'int32':
-      return [0] * c
-    return [draw(st.sampled_from([0.0, -0.0])) for _ in range(c)]
-  if style == 'const':
-    v = draw(elem)
-    return [v] * c
-  pool = draw(st.lists(elem, min_size=2, max_size=3, unique_by=repr))
-  return [draw(st.sampled_from(pool)) for _ in range(c)]
+def _fixed(elem, n):
+  return st.lists(elem, min_size=n, max_size=n)
+
+
+@functools.lru_cache(maxsize=None)
+def score_row(c, dtype):
+  """One row of c class scores (strategy); see RULE for the styles."""
+  if dtype == 'int32':
+    elem = st.integers(-3, 3)
+    free = [_fixed(elem, c)]
+    zeros = st.just([0] * c)
+  else:
+    elem = score()
+    free = [_fixed(st.sampled_from(TABLE), c), _fixed(elem, c)]
+    zeros = _fixed(st.sampled_from([0.0, -0.0]), c)
+  pool = st.lists(elem, min_size=2, max_size=3, unique_by=repr).flatmap(
+      lambda vals: _fixed(st.sampled_from(vals), c))
+  const = elem.map(lambda v: [v] * c)
+  # one_of() drops repeated branches, so weight the styles by index.
+  styles = [pool] * 4 + [free[0]] * 2 + [free[-1]] * 3 + [const, zeros]
+  return st.sampled_from(range(len(styles))).flatmap(lambda i: styles[i])
 
 
 def keys_and_mode(draw, spec, with_pred_key=True):
@@ -654,7 +661,7 @@ def draw_spec(draw, tier, family, n_examples):
     if name == 'ConfusionMatrix':
       spec['cm_classes'] = c
     keys_and_mode(draw, spec)
-    preds = [draw(score_row(c, spec['pred_dtype'])) for _ in range(n_examples)]
+    preds = draw(_fixed(score_row(c, spec['pred_dtype']), n_examples))
     targets = []
     for row in preds:
       if draw(st.integers(0, 3)) == 0:
@@ -681,7 +688,7 @@ def draw_spec(draw, tier, family, n_examples):
     keys_and_mode(draw, spec)
     preds, targets = [], []
     for _ in range(n_examples):
-      rows = [draw(score_row(c, spec['pred_dtype'])) for _ in range(t)]
+      rows = draw(_fixed(score_row(c, spec['pred_dtype']), t))
       preds.append(rows)
       targets.append(draw(seq_targets(t, c, spec['masked'], rows)))
     return spec, targets, preds
@@ -728,7 +735,7 @@ def confusion_strategy(draw, tier):
   c = draw(st.sampled_from(cs))
   n = draw(st.sampled_from([1, 3, 4]))
   dt = draw(st.sampled_from(['float32', 'float32', 'float32', 'int32']))
-  preds = [draw(score_row(c, dt)) for _ in range(n)]
+  preds = draw(_fixed(score_row(c, dt), n))
   targets = []
   for row in preds:
     if draw(st.booleans()):
